@@ -177,7 +177,20 @@ class Ctx:
                     raise Unsupported("unknown during concretisation")
                 if r != "sat":
                     break
-                v = m.eval(e, model_completion=True).as_long()
+                mv = m.eval(e, model_completion=True)
+                if z3.is_int_value(mv):
+                    v = mv.as_long()
+                else:
+                    # e.g. to_int of an algebraic number in a model from the nonlinear solver
+                    try:
+                        v = int(evalz(mv, {}))
+                    except (KeyError, ZeroDivisionError):
+                        self.solver.pop()
+                        raise Unsupported(f"model value of {e} is not a numeral: {mv}")
+                    rchk, _ = self._check(e == v)
+                    if rchk != "sat":
+                        self.solver.pop()
+                        raise Unsupported(f"could not confirm approximate model value {v} of {e}")
                 vals.append(v)
                 self.solver.add(e != v)
                 if len(vals) > cap:
@@ -965,6 +978,9 @@ def evalz(e, env, ufs=None):
             return t.as_long()
         if z3.is_rational_value(t):
             return Fraction(t.numerator_as_long(), t.denominator_as_long())
+        if z3.is_algebraic_value(t):
+            a = t.approx(30)
+            return Fraction(a.numerator_as_long(), a.denominator_as_long())
         if z3.is_true(t):
             return True
         if z3.is_false(t):
